@@ -408,7 +408,10 @@ func c20Run(env *storeEnv, sc c20Scenario, work string) (int, int, error) {
 		results = nil
 		for _, rq := range reqs {
 			one := env.run([]childReq{rq})
-			if one.Exit != 0 || len(one.Res) != perState {
+			if one.Exit == 0 && len(one.Res) != perState {
+				return len(states), 0, fmt.Errorf("HARNESS-SELFTEST the child finished normally but its answer could not be read (%d results for %d requests): %s", len(one.Res), perState, trunc(one.Stderr, 300))
+			}
+			if one.Exit != 0 {
 				return len(states), 0, fmt.Errorf("retrieving from the crash state %q terminated the process (exit %d): %s", states[len(results)/perState].What, one.Exit, trunc(one.Stderr, 300))
 			}
 			results = append(results, one.Res...)
@@ -429,8 +432,8 @@ func c20Run(env *storeEnv, sc c20Scenario, work string) (int, int, error) {
 		if x.Err == "" {
 			raw, _ := base64.StdEncoding.DecodeString(x.Doc)
 			got := decode(raw)
-			isOld := sc.OldDoc != nil && proto.Equal(got, oldDoc)
-			isNew := proto.Equal(got, newDoc)
+			isOld := sc.OldDoc != nil && sameComplete(got, oldDoc)
+			isNew := sameComplete(got, newDoc)
 			if x.NilDoc || (!isOld && !isNew) {
 				return len(states), nontrivial, fmt.Errorf("scenario %s, crash state %q: retrieve returned neither an error nor the complete old or new document (got %d bytes: %s)", sc.Name, st.What, len(raw), trunc(fmt.Sprintf("%v", got), 300))
 			}
@@ -446,7 +449,7 @@ func c20Run(env *storeEnv, sc c20Scenario, work string) (int, int, error) {
 		if neighbourID != "" {
 			y := results[i*perState+1]
 			raw, _ := base64.StdEncoding.DecodeString(y.Doc)
-			if y.Err != "" || !proto.Equal(decode(raw), decode(sc.Neighbour)) {
+			if y.Err != "" || !sameComplete(decode(raw), decode(sc.Neighbour)) {
 				return len(states), nontrivial, fmt.Errorf("scenario %s, crash state %q: the entry stored under another identifier is affected (err=%q)", sc.Name, st.What, y.Err)
 			}
 		}
@@ -467,11 +470,17 @@ func c20Run(env *storeEnv, sc c20Scenario, work string) (int, int, error) {
 			rreqs = append(rreqs, childReq{Op: "retrieve", Dir: filepath.Join(st.Dir, base), IDs: ids})
 		}
 		sr := env.run(sreqs)
-		if sr.Exit != 0 || len(sr.Res) != len(follow) {
+		if sr.Exit == 0 && len(sr.Res) != len(follow) {
+			return len(states), nontrivial, fmt.Errorf("HARNESS-SELFTEST the storing child finished normally but its answer could not be read: %s", trunc(sr.Stderr, 300))
+		}
+		if sr.Exit != 0 {
 			return len(states), nontrivial, fmt.Errorf("scenario %s: storing again after a crash terminated the process (exit %d): %s", sc.Name, sr.Exit, trunc(sr.Stderr, 300))
 		}
 		rr := env.run(rreqs)
-		if rr.Exit != 0 || len(rr.Res) != len(follow)*perState {
+		if rr.Exit == 0 && len(rr.Res) != len(follow)*perState {
+			return len(states), nontrivial, fmt.Errorf("HARNESS-SELFTEST the retrieving child finished normally but its answer could not be read: %s", trunc(rr.Stderr, 300))
+		}
+		if rr.Exit != 0 {
 			return len(states), nontrivial, fmt.Errorf("scenario %s: retrieving after a post-crash store terminated the process (exit %d): %s", sc.Name, rr.Exit, trunc(rr.Stderr, 300))
 		}
 		thirdDoc := decode(third)
@@ -484,7 +493,7 @@ func c20Run(env *storeEnv, sc c20Scenario, work string) (int, int, error) {
 			raw, _ := base64.StdEncoding.DecodeString(x.Doc)
 			if x.Err == "" {
 				got := decode(raw)
-				ok := proto.Equal(got, thirdDoc) || proto.Equal(got, decode(sc.NewDoc)) || (sc.OldDoc != nil && proto.Equal(got, decode(sc.OldDoc)))
+				ok := sameComplete(got, thirdDoc) || sameComplete(got, decode(sc.NewDoc)) || (sc.OldDoc != nil && sameComplete(got, decode(sc.OldDoc)))
 				if !ok {
 					return len(states), nontrivial, fmt.Errorf("scenario %s, state %q: after the crash and a further store (err=%q), retrieve returns a document that is none of the complete ones (got %d bytes; stored afterwards: %d bytes)", sc.Name, st.What, sr.Res[i].Err, len(raw), len(third))
 				}
@@ -492,7 +501,7 @@ func c20Run(env *storeEnv, sc c20Scenario, work string) (int, int, error) {
 			if neighbourID != "" {
 				y := rr.Res[i*perState+1]
 				rawN, _ := base64.StdEncoding.DecodeString(y.Doc)
-				if y.Err != "" || !proto.Equal(decode(rawN), decode(sc.Neighbour)) {
+				if y.Err != "" || !sameComplete(decode(rawN), decode(sc.Neighbour)) {
 					return len(states), nontrivial, fmt.Errorf("scenario %s, state %q: the neighbour entry is affected by the post-crash store", sc.Name, st.What)
 				}
 			}
@@ -606,4 +615,23 @@ func TestC20(t *testing.T) {
 	}
 	hx.SetExhaustive(true)
 	hx.Note("per scenario: every file-system call boundary of the traced store (kill before the call takes effect, by strace fault injection) and torn prefixes of every write (all prefixes for writes <=512 bytes, 70 sampled otherwise)")
+}
+
+// sameComplete: the two documents carry the same content. "Complete" is opposed to truncated, empty or mixed; whether
+// an absent container comes back as an empty one (nil vs empty node list / metadata) is not this property's subject.
+func sameComplete(a, b *sbom.Document) bool {
+	if proto.Equal(a, b) {
+		return true
+	}
+	norm := func(d *sbom.Document) *sbom.Document {
+		c := proto.Clone(d).(*sbom.Document)
+		if c.Metadata == nil {
+			c.Metadata = &sbom.Metadata{}
+		}
+		if c.NodeList == nil {
+			c.NodeList = &sbom.NodeList{}
+		}
+		return c
+	}
+	return proto.Equal(norm(a), norm(b))
 }
